@@ -111,7 +111,9 @@ func (upc *BroadcastRawUDPConn) ReadFrom(b []byte) (int, net.Addr, error) {
 			continue
 		}
 
-		if !buf.Has(udpHdrLen) {
+		// The IP payload must be able to hold a UDP header, both according
+		// to the IP total length and to the bytes actually received.
+		if int(ipHdr.payloadLength()) < udpHdrLen || !buf.Has(udpHdrLen) {
 			continue
 		}
 
